@@ -43,6 +43,8 @@ def bound(tier):
 
 def plan(tier, seed):
     items = [dict(layer="oracle-selfcheck")]
+    for kind, arch in (("positive", [2, 2]), ("complex", [2, 2]), ("mixed", [2, 1, 2]), ("mixed", [2, 2, 1])):
+        items.append(dict(layer="stateful", kind=kind, arch=arch))
     for kind in ("positive", "complex", "mixed"):
         dev = ARCHS_Q[kind] + ([] if tier == "quick" else ARCHS_T[kind])
         pat = ARCHS_PAT[kind] if tier == "quick" else ARCHS_T_PAT[kind]
@@ -114,10 +116,12 @@ def pool_rows(n, kind):
     return list(zip(outs, bs))
 
 
-def check_case(acc, kind, arch, params, full=True):
+def check_case(acc, kind, arch, params, full=True, st=None, history=None):
     case = dict(kind=kind, arch=arch, params=params)
+    if history is not None:
+        case["history"] = history
     L = lib()
-    st = build_state(kind, arch, params)
+    st = build_state(kind, arch, params) if st is None else st
     n = arch[0]
     D = 2 ** n
     space = tbits(n)
@@ -267,8 +271,31 @@ def selfcheck(acc):
     acc.outcome("selfcheck")
 
 
+def run_stateful(acc, kind, arch):
+    """non-initial states: gradients of a LIVE model after in-place parameter updates"""
+    from ..common import update_params, UPDATE_STYLES
+    from .c05 import stateful_sequence
+    seq = stateful_sequence(kind, arch)
+    st = build_state(kind, arch, seq[0])
+    check_case(acc, kind, arch, seq[0], full=False, st=st, history=[])
+    hist = []
+    for i, style in enumerate(UPDATE_STYLES):
+        hist = hist + [dict(update=style, to_pattern=i + 1)]
+        update_params(st, seq[i + 1], style)
+        check_case(acc, kind, arch, seq[i + 1], full=False, st=st, history=hist)
+
+
 def run_item(item):
     acc = Acc()
+    if item["layer"] == "stateful":
+        run_stateful(acc, item["kind"], item["arch"])
+        acc.sample(dict(layer="stateful", kind=item["kind"], arch=item["arch"]), cap=1)
+        c = acc.counters
+        acc.states = acc.evaluations
+        acc.transitions = c.get("single_gradients", 0) + c.get("batch_gradients", 0) * 2 + c.get("exact_gradients", 0)
+        acc.traces = acc.transitions
+        acc.evaluations = max(acc.evaluations, acc.transitions)
+        return acc
     if item["layer"] == "oracle-selfcheck":
         selfcheck(acc)
         return acc
@@ -292,5 +319,8 @@ def run_item(item):
 
 def replay(case):
     acc = Acc()
+    if case.get("history"):
+        run_stateful(acc, case["kind"], case["arch"])
+        return acc
     check_case(acc, case["kind"], case["arch"], case["params"], full=True)
     return acc
